@@ -1585,6 +1585,39 @@ fn resolve_benchmark_file_path(path: &str) -> PathBuf {
     }
 }
 
+/// Verification hooks (only compiled with `--cfg datafusion_verif`).
+#[cfg(datafusion_verif)]
+pub mod verif_hooks {
+    use super::*;
+
+    /// Runs the private result comparison for a query with `column_count` columns.
+    pub fn compare_results(
+        query_text: &str,
+        column_count: usize,
+        actual: &[Vec<String>],
+        expected: &[Vec<String>],
+    ) -> Result<()> {
+        let query = BenchmarkQuery {
+            path: None,
+            query: query_text.to_string(),
+            column_count,
+            expected_result: expected.to_vec(),
+        };
+        SqlBenchmark::compare_results(&query, actual, expected)
+    }
+
+    /// Runs the private placeholder substitution with an explicit environment.
+    pub fn process_replacements_with_env(
+        input: &str,
+        replacement_map: &HashMap<String, String>,
+        env: &HashMap<String, String>,
+    ) -> Result<String> {
+        super::process_replacements_with_env(input, replacement_map, |k| {
+            env.get(k).cloned()
+        })
+    }
+}
+
 #[cfg(test)]
 mod tests {
     use super::*;
